@@ -83,14 +83,24 @@ SumW(a, kk) == LET S == Splits(kk, Len(a)) IN
                    go(R) == IF R = {} THEN 0 ELSE LET x == CHOOSE y \in R : TRUE IN Wt(a, x) + go(R \ {x})
                IN go(S)
 First(kk, T) == [i \in 1..T |-> IF i = 1 THEN kk ELSE 0]
+(* the admissible splits of kk, built topology by topology (the last topology T spends T edges per member) *)
+RECURSIVE SplitsFast(_, _)
+SplitsFast(kk, T) == IF T = 1 THEN {<<kk>>}
+                     ELSE UNION {{Append(r, i) : r \in SplitsFast(kk - i * T, T - 1)} : i \in 0..(kk \div T)}
 SplitLike(t) ==
     LET T == Len(t.a)
         ks == t.lo..(t.hi - 1)
+        \* split sets and weight sums per degree, built once per trace (degrees may be in the hundreds)
+        SplitTab == TLCEval([kk \in ks |-> SplitsFast(kk, T)])
+        SumWTab == TLCEval([kk \in ks |-> LET S == SplitTab[kk] IN
+                                            LET RECURSIVE go(_)
+                                                go(R) == IF R = {} THEN 0 ELSE LET x == CHOOSE y \in R : TRUE IN Wt(t.a, x) + go(R \ {x})
+                                            IN go(S)])
         f(kk) == t.f[kk - t.lo + 1]
         SumF == SumSeq(t.f)
         split(kk) == ~t.delta \/ kk = t.target
-        Support == UNION {IF split(kk) THEN Splits(kk, T) ELSE {First(kk, T)} : kk \in ks}
-        Den(s) == IF split(Total(s)) THEN SumF * SumW(t.a, Total(s)) ELSE SumF
+        Support == UNION {IF split(kk) THEN SplitTab[kk] ELSE {First(kk, T)} : kk \in ks}
+        Den(s) == IF split(Total(s)) THEN SumF * SumWTab[Total(s)] ELSE SumF
         Num(s) == IF split(Total(s)) THEN f(Total(s)) * Wt(t.a, s) ELSE f(Total(s))
         MassK(kk) == SumSeq([i \in DOMAIN t.first |-> IF Total(t.first[i].key) = kk THEN t.first[i].n ELSE 0])
         steps == t.steps
@@ -105,7 +115,7 @@ SplitLike(t) ==
          [] c = "within_k" -> Keys(t.first) # Support \/ \E i \in DOMAIN t.first : t.first[i].key \in Support /\ t.first[i].n # Num(t.first[i].key)
             \* mass of all joint degrees using kk edges is proportional to f(kk) (one normaliser): sum_s n_s/Den = f(kk)/SumF
          [] c = "mass_per_k" -> \E kk \in ks : (\E s \in Keys(t.first) : Total(s) = kk) /\
-                                   MassK(kk) # f(kk) * (IF split(kk) THEN SumW(t.a, kk) ELSE 1)
+                                   MassK(kk) # f(kk) * (IF split(kk) THEN SumWTab[kk] ELSE 1)
          [] c = "sums_to_one" -> ~t.sum_ok
          [] c = "resolved_degree_discarded_later" ->
                \E i \in DOMAIN steps : i > 1 /\ ~(SetOf(steps[i - 1]) \subseteq SetOf(steps[i]))}
